@@ -280,6 +280,138 @@ PROPS["C06"]["strata"] = lambda rec: [f"n={rec['scn'].get('n')}", f"mag={rec['sc
 
 # ============================================================================ algorithm family
 
+def normalise_cmp(s):
+    """observables that the properties leave open are never compared with the model: which
+    winning strategies gonality() lists (they are validated instead, see `witnesses`)"""
+    if s.get("op") == "gonality":
+        c = s.get("_cmp")
+        s["_cmp"] = ["gonality", "graph"] if c is None else [k for k in c if k != "strategies"]
+        if s.get("_rel") is not None:
+            s["_rel"] = [k for k in s["_rel"] if k != "strategies"]
+    return s
+
+
+def _connected(s):
+    n, es = s.get("n"), s.get("edges")
+    if not isinstance(n, int) or not isinstance(es, list) or n <= 0:
+        return False
+    comp = list(range(n))
+
+    def find(x):
+        while comp[x] != x:
+            comp[x] = comp[comp[x]]
+            x = comp[x]
+        return x
+    for e in es:
+        if not (isinstance(e, (list, tuple)) and len(e) == 3 and all(isinstance(t, int) for t in e)):
+            return False
+        a, b, k = e
+        if not (0 <= a < n and 0 <= b < n) or a == b or k <= 0:
+            return False
+        comp[find(a)] = find(b)
+    return len({find(v) for v in range(n)}) == 1
+
+
+def witnesses(rec, pid=None):
+    """second phase: things the implementation CHOSE (the property leaves the choice open) are
+    handed to the verified model for validation.  Returns [{scn, check, what}], `check` maps the
+    model's answer to a failure text or None."""
+    s = rec["scn"]
+    out = []
+    g = {k: s[k] for k in ("n", "edges") if k in s}
+    seen = set()
+    if not _connected(s):
+        return out          # the verified reduction is only guaranteed to return on connected graphs
+    for hs, p in rec["py"].items():
+        if not isinstance(p, dict):
+            continue
+        if s.get("op") == "gonality" and isinstance(p.get("strategies"), list) and isinstance(p.get("gonality"), int) and p["gonality"] >= 1:
+            for st in p["strategies"][:5]:
+                key = ("g", tuple(st))
+                if key in seen:
+                    continue
+                seen.add(key)
+                if sum(st) != p["gonality"] or any(x < 0 for x in st):
+                    out.append({"scn": None, "fail": f"reported strategy {st} is not an effective placement of {p['gonality']} chips"})
+                    continue
+                w = dict(g, op="play", P=list(st), nchips=sum(st), v=0)
+
+                def chk(o, st=st):
+                    t = o.get("test") if isinstance(o, dict) else None
+                    if isinstance(t, list) and t and t[0] is True:
+                        return None
+                    return f"reported winning strategy {st} does not beat every opponent vertex (verified strategy test: {t})"
+                out.append({"scn": w, "check": chk})
+        if pid == "C16" and len(s.get("deg", [])) == s.get("n"):
+            # in-place family: whatever the caller's divisor was replaced by must be linearly
+            # equivalent to what was handed in
+            for key in ("arg", "is_winnable_arg", "q_reduction_arg", "after_debt", "after_fire"):
+                v = p.get(key)
+                if isinstance(v, list) and len(v) == s["n"] and list(v) != list(s["deg"]) and ("a", tuple(v)) not in seen:
+                    seen.add(("a", tuple(v)))
+                    w = dict(g, op="lin_equiv", D1=list(s["deg"]), D2=list(v))
+
+                    def chk3(o, v=v, key=key):
+                        if isinstance(o, dict) and o.get("equiv") is True:
+                            return None
+                        return f"{key}: the caller's divisor was replaced by {v}, which is not linearly equivalent to the input (verified test: {o.get('equiv') if isinstance(o, dict) else o})"
+                    out.append({"scn": w, "check": chk3})
+        if pid in ("C09", "C01", "C02") and s.get("op") == "ewd" and isinstance(p.get("orient"), list) and p["orient"] and isinstance(p.get("D"), list):
+            # the returned orientation goes to the verified certificate checker (C09.checker_sound);
+            # topological positions are computed here (untrusted): Kahn
+            n = s["n"]
+            dirs = {(u, v) for u, v in p["orient"]}
+            key = ("c", tuple(sorted(dirs)), tuple(p["D"]))
+            if key not in seen:
+                seen.add(key)
+                indeg = {v: sum(1 for u in range(n) if (u, v) in dirs) for v in range(n)}
+                order, stack = [], [v for v in range(n) if indeg[v] == 0]
+                while stack:
+                    u = stack.pop()
+                    order.append(u)
+                    for v in range(n):
+                        if (u, v) in dirs:
+                            indeg[v] -= 1
+                            if indeg[v] == 0:
+                                stack.append(v)
+                srcs = [v for v in range(n) if not any((u, v) in dirs for u in range(n))]
+                qv = p.get("q") if p.get("q") is not None else (srcs[0] if len(srcs) == 1 else None)
+                if len(order) != n:
+                    out.append({"scn": None, "fail": "the returned orientation has a directed cycle"})
+                elif qv is None:
+                    out.append({"scn": None, "fail": f"the returned orientation has sources {srcs}: expected exactly one"})
+                else:
+                    pos = [0] * n
+                    for i, v in enumerate(order):
+                        pos[v] = i
+                    w = dict(g, op="cert", q=qv, D=list(p["D"]), orient=[list(e) for e in p["orient"]], pos=pos)
+
+                    def chk4(o, p=p):
+                        if isinstance(o, dict) and o.get("ok") is True:
+                            if p.get("indeg") is not None and o.get("indeg") != p["indeg"]:
+                                return f"reported in-degree counters {p['indeg']} differ from the orientation's in-degrees {o.get('indeg')}"
+                            return None
+                        return f"the returned orientation is not a certificate (verified checker: {o}); divisor {p['D']}"
+                    out.append({"scn": w, "check": chk4})
+        if s.get("op") in ("ewd", "dhar") and s.get("viz"):
+            snaps = p.get("trace") if s["op"] == "ewd" else p.get("borrows")
+            if isinstance(snaps, list) and snaps and len(s.get("deg", [])) == s.get("n"):
+                pick = snaps[:3] + snaps[len(snaps) // 2: len(snaps) // 2 + 1] + snaps[-2:]
+                for sn in pick:
+                    key = ("t", tuple(sn))
+                    if key in seen or list(sn) == list(s["deg"]):
+                        continue
+                    seen.add(key)
+                    w = dict(g, op="lin_equiv", D1=list(s["deg"]), D2=list(sn))
+
+                    def chk2(o, sn=sn):
+                        if isinstance(o, dict) and o.get("equiv") is True:
+                            return None
+                        return f"recorded snapshot {sn} is not linearly equivalent to the input (verified test: {o.get('equiv') if isinstance(o, dict) else o})"
+                    out.append({"scn": w, "check": chk2})
+    return out
+
+
 def tag_cmp(scns, cmp_keys, rel=None):
     for s in scns:
         s["_cmp"] = cmp_keys
@@ -413,8 +545,9 @@ PROPS["C07"] = {"generate": c07_generate, "strata": algo_strata,
 # ---- C08
 def c08_generate(rng, tier):
     a = genhist.gen_dhar(rng, count(tier, 400, 6000), nmax=count(tier, 6, 8))
-    return tag_cmp(a, ["after_debt", "unburnt", "after_fire", "superstable", "borrows", "argtotal", "direct_unburnt", "direct_after"],
-                   rel=["after_debt", "unburnt", "after_fire", "superstable", "argtotal", "direct_unburnt", "direct_after"])
+    # the sequence of recorded borrowing steps is not compared: only its result is pinned down
+    # (least action); the recorded snapshots are C18's business
+    return tag_cmp(a, ["after_debt", "unburnt", "after_fire", "superstable", "argtotal", "direct_unburnt", "direct_after"])
 
 
 NONTRIVIAL_RULE["C08"] = "non-trivial: n>=3 with a multi-edge or cycle"
@@ -428,7 +561,10 @@ def c09_generate(rng, tier):
     a = gen_ewd_cases(rng, count(tier, 300, 4000), nmax=count(tier, 6, 8), viz_share=0.5)
     a += gen_chain_debt_cases(rng, count(tier, 60, 1000))
     a += gen_long_run_cases(rng, count(tier, 6, 40))
-    return tag_cmp(a, ["orient", "indeg", "outdeg", "full", "verdict"])
+    # which certificate is returned is not pinned down by the property (any valid burn order gives
+    # one): the orientation is not compared with the model's edge by edge, it is checked to BE a
+    # certificate (c09_judge); verdict, fullness and the reduced divisor are compared
+    return tag_cmp(a, ["full", "verdict", "D"])
 
 
 def c09_judge(rec):
@@ -481,8 +617,8 @@ def c09_judge(rec):
 
 NONTRIVIAL_RULE["C09"] = "non-trivial: n>=3 with a multi-edge or cycle and an orientation was returned"
 PROPS["C09"] = {"generate": c09_generate, "judge": c09_judge, "strata": ewd_strata, "nontrivial": ewd_nontrivial,
-                "rule": "EWD in both modes (orientation returned on the non-shortcut path); every returned orientation is compared edge by edge with the model's and re-checked directly: full, acyclic, unique source, in-degree bound, domination",
-                "theorems": ["ewd_orientation_certificate", "unwinnable_dominated", "never_not_full", "certificate_connected"]}
+                "rule": "EWD in both modes (orientation returned on the non-shortcut path); verdict, fullness and reduced divisor compared with the model; every returned orientation is checked directly to be the certificate the property describes: full, acyclic, unique source, in-degree bound, counters consistent, domination (which valid certificate is returned is left open, so a different but valid burn order raises no alarm)",
+                "theorems": ["ewd_orientation_certificate", "unwinnable_dominated", "never_not_full", "certificate_connected", "checker_sound", "checker_proves_unwinnable"]}
 
 
 # ---- C14
@@ -745,12 +881,15 @@ def c18_generate(rng, tier):
         t = dict(s)
         t["viz"] = False
         b.append(t)
-    tag_cmp(a, ["verdict", "D", "orient", "trace", "q"], rel=["verdict", "D", "orient"])
-    tag_cmp(b, ["verdict", "D", "orient"])
+    # orientation and recorded history are not compared with the model's (a different valid burn
+    # order or a coarser recording is harmless): recording on/off are compared with each other
+    # (group judge) and every recorded snapshot is validated (judge + witness phase)
+    tag_cmp(a, ["verdict", "D", "q"])
+    tag_cmp(b, ["verdict", "D"])
     for i, (x, y) in enumerate(zip(a, b)):
         x["_group"] = y["_group"] = i
     c = tag_cmp(genhist.gen_elements(rng, count(tier, 300, 4000)), None)
-    d = tag_cmp([dict(s, viz=True) for s in genhist.gen_dhar(rng, count(tier, 100, 1000))], ["borrows", "after_debt"], rel=["after_debt"])
+    d = tag_cmp([dict(s, viz=True) for s in genhist.gen_dhar(rng, count(tier, 100, 1000))], ["after_debt"])
     return a + b + c + d
 
 
@@ -765,6 +904,11 @@ def c18_judge(rec):
                 fails.append("last recorded divisor differs from the returned one")
             if any(sum(x) != sum(s["deg"]) for x in p["trace"]):
                 fails.append("a recorded snapshot has another total degree than the input")
+        if s["op"] == "dhar" and isinstance(p.get("borrows"), list) and p["borrows"]:
+            if p.get("after_debt") is not None and p["borrows"][-1] != p["after_debt"]:
+                fails.append("last recorded debt-concentration snapshot differs from the resulting divisor")
+            if any(sum(x) != sum(s["deg"]) for x in p["borrows"]):
+                fails.append("a recorded debt-concentration snapshot has another total degree than the input")
         if s["op"] == "ewd" and p.get("trace") == "ALIASED":
             fails.append("recorded snapshots change when the returned divisor is modified afterwards")
         if s["op"] == "elements":
@@ -803,7 +947,7 @@ def c18_group_judge(recs):
 NONTRIVIAL_RULE["C18"] = "non-trivial: n>=3 with a multi-edge or cycle"
 PROPS["C18"] = {"generate": c18_generate, "judge": c18_judge, "group_judge": c18_group_judge, "strata": algo_strata,
                 "nontrivial": lambda rec: graph_nontrivial(rec["scn"]),
-                "rule": "EWD on the same input with recording on and off (results compared with each other and with the model; the recorded history compared snapshot by snapshot with the model's trace, its independence tested by mutating the returned divisor afterwards); Dhar runs with a recorder; element lists of graphs, divisors, partial orientations and EWD steps for hyphen-free names, compared element by element with the model's",
+                "rule": "EWD on the same input with recording on and off (verdict, divisor, orientation and counters compared with each other; verdict and divisor with the model; every recorded snapshot validated: same degree, linearly equivalent to the input according to the verified model (witness phase), last one equal to the returned divisor; independence tested by mutating the returned divisor afterwards); Dhar runs with a recorder; element lists of graphs, divisors, partial orientations and EWD steps for hyphen-free names, compared element by element with the model's",
                 "theorems": ["recording_does_not_perturb", "trace_snapshots", "one_node_per_vertex", "edge_elements_spec", "arrows_iff_oriented"]}
 
 
